@@ -161,7 +161,198 @@ Proof.
         apply N.eqb_neq in En.
         apply IH in E.
         -- cbn [cur released cw cwakes] in E. destruct E as (E1 & E2 & E3 & E4).
-           fin.
+           split; [assumption|]; split; [congruence|]; split; [lia|]; intros; exfalso; lia.
         -- unfold rgood. cbn [cur released]. destruct G1 as [C1 R1]. split; auto. rewrite R1, Gt, Gk. reflexivity.
 Qed.
+
+Lemma acqc_spec : forall w c c' n, 1 <= w -> cinvr size c -> acquire_consumer size w c = (c', n) ->
+  cinvr size c' /\ tw c' = tw c /\ tr c' = tr c /\ n <= tw c - tr c /\ (n = 0 -> tw c = tr c).
+Proof.
+  intros w c c' n Hw C E.
+  assert (C' : cinvr size c') by (replace c' with (fst (acquire_consumer size w c)) by (rewrite E; auto); apply inv_acquire_consumer; auto).
+  split; [exact C'|]. clear C'.
+  pose proof (ci_ord _ _ C) as O. pose proof (ci_clen _ _ C) as CL.
+  revert E. unfold acquire_consumer.
+  destruct (N.min w size <=? c_len c) eqn:E1.
+  - intros X. inversion X. subst. apply N.leb_le in E1. split; [auto|]. split; [auto|]. split; lia.
+  - destruct (c_cp c =? g_prod c) eqn:E2.
+    + intros X. inversion X. subst. apply N.eqb_eq in E2.
+      rewrite (ci_ccp _ _ C), (ci_prod _ _ C) in E2. apply mod_inj_window in E2; [|reflexivity|lia|unfold two32; lia].
+      split; [auto|]. split; [auto|]. split; lia.
+    + intros X. inversion X. subst. cbn [tw tr]. split; [auto|]. split; [auto|].
+      rewrite (ci_prod _ _ C), (ci_ccc _ _ C). rewrite wsub32_spec by (unfold two32; lia). split; lia.
+Qed.
+
+Ltac sp := split; [solve [auto | congruence | lia]|].
+Lemma cpa_spec : forall w s s' code n, 1 <= w -> rgood s -> consumer_poll_acquire size w s = (s', code, n) ->
+  rgood s' /\ tw (cur s') = tw (cur s) /\ tr (cur s') = tr (cur s) /\ cwakes s' = cwakes s /\ ropen s' = ropen s /\
+  ((code = 1 /\ 0 < n /\ n <= tw (cur s) - tr (cur s)) \/
+   (code = 0 /\ n = 0 /\ tw (cur s) = tr (cur s) /\ cw s' = true)).
+Proof.
+  intros w s s' code n Hw [C R] E. revert E. unfold consumer_poll_acquire.
+  destruct (acquire_consumer size w (cur s)) as [c1 n1] eqn:E1.
+  destruct (acqc_spec _ _ _ _ Hw C E1) as (C1 & T1 & T2 & L1 & Z1).
+  destruct (0 <? n1) eqn:P1.
+  - intros X. inversion X. subst. apply N.ltb_lt in P1. unfold rgood. cbn.
+    split; [split; [exact C1|congruence]|]. sp. sp. sp. sp. left. sp. sp. lia.
+  - destruct (acquire_consumer size w c1) as [c2 n2] eqn:E2.
+    destruct (acqc_spec _ _ _ _ Hw C1 E2) as (C2 & T3 & T4 & L2 & Z2).
+    destruct (0 <? n2) eqn:P2.
+    + intros X. inversion X. subst. apply N.ltb_lt in P2. unfold rgood. cbn.
+      split; [split; [exact C2|congruence]|]. sp. sp. sp. sp. left. sp. sp. lia.
+    + intros X. inversion X. subst. apply N.ltb_ge in P2. unfold rgood. cbn.
+      split; [split; [exact C2|congruence]|]. sp. sp. sp. sp. right. sp. sp.
+      assert (n2 = 0) as Hz by lia. specialize (Z2 Hz). split; [congruence|reflexivity].
+Qed.
+
+Lemma crel_spec : forall a s, rgood s ->
+  let s' := consumer_release size a s in
+  rgood s' /\ tw (cur s') = tw (cur s) /\ tr (cur s') = tr (cur s) + N.min a (c_len (cur s)) /\
+  cw s' = cw s /\ cwakes s' = cwakes s /\ ropen s' = ropen s /\ N.min a (c_len (cur s)) <= tw (cur s) - tr (cur s).
+Proof.
+  intros a s [C R]. unfold consumer_release.
+  destruct (consume size (N.min a (c_len (cur s))) (cur s)) as [c1 vs] eqn:E.
+  assert (C1 : cinvr size c1) by (replace c1 with (fst (consume size (N.min a (c_len (cur s))) (cur s))) by (rewrite E; auto); apply inv_consume; auto).
+  assert (T : tw c1 = tw (cur s) /\ tr c1 = tr (cur s) + N.min a (c_len (cur s))).
+  { revert E. unfold consume. intros X. inversion X. cbn. split; auto. f_equal. lia. }
+  destruct T as [T1 T2]. pose proof (ci_ord _ _ C). pose proof (ci_clen _ _ C).
+  unfold wake_task, set_cur, rgood. destruct (pw _); cbn; (split; [split; [exact C1|congruence]|]); sp; sp; sp; sp; sp; lia.
+Qed.
+
+Lemma task_poll_spec : forall script s s' code, rgood s -> task_poll size script s = (s', code) ->
+  rgood s' /\ tr (cur s') = tr (cur s) /\ released s <= released s' /\
+  (released s' = released s -> cw s' = cw s /\ cwakes s' = cwakes s).
+Proof.
+  intros script s s' code G E. unfold task_poll in E. apply rx_loop_good in E.
+  - destruct (has_dw s); cbn [cur released cw cwakes] in E; destruct E as (A & B & C & D); (split; [exact A|]); sp; sp; intros; apply D; auto.
+  - destruct (has_dw s); auto.
+Qed.
+
+Lemma rx_loop_ropen : forall fuel script pwk s s' code, rx_loop fuel size script pwk s = (s', code) -> ropen s' = ropen s.
+Proof.
+  induction fuel as [|f IH]; intros script pwk s s' code; cbn [rx_loop].
+  - intros E. inversion E. auto.
+  - destruct (producer_poll_acquire size s) as [s1 n] eqn:Ep. destruct (ppa_frame _ _ _ _ Ep) as (F1 & F2 & F3 & F4).
+    assert (W : forall x, ropen (wake_consumer x) = ropen x) by (intros x; unfold wake_consumer; destruct (cw x); auto).
+    destruct (n =? 0).
+    + destruct (negb (ropen s1)); intros E; inversion E; subst; auto.
+      destruct (pwk && early_wakes); [rewrite W|]; auto.
+    + destruct script as [|v rest]; [|destruct v as [|p]]; try (intros E; inversion E; subst; destruct pwk; [rewrite W|]; auto; fail).
+      destruct (produce size (N.min (N.pos p) (p_len (cur s1))) (cur s1)) as [c2 k]. intros E. apply IH in E. cbn in E. congruence.
+Qed.
+
+Lemma task_poll_ropen : forall script s s' code, task_poll size script s = (s', code) -> ropen s' = ropen s.
+Proof.
+  intros script s s' code E. unfold task_poll in E. apply rx_loop_ropen in E. destruct (has_dw s); cbn in E; auto.
+Qed.
+
+Definition wait_ok (wait : option Z) (s : rst) : Prop :=
+  match wait with Some w0 => ropen s = true /\ cw s = true /\ w0 = Nz (cwakes s) | None => True end.
+
+Lemma drop_good : forall s, rgood s -> rgood (consumer_drop s) /\ cur (consumer_drop s) = cur s.
+Proof.
+  intros s G. unfold consumer_drop, wake_task. cbn. destruct (pw s); cbn; destruct (dw s); cbn; auto.
+Qed.
+
+Lemma judge_rrun : forall fuel ops alive s wait,
+  rgood s -> wait_ok wait s -> (alive = false -> wait = None) -> (alive = true -> ropen s = true) ->
+  rjudge fuel ops wait (Nz (tw (cur s)) - Nz (tr (cur s))) (rrun fuel size ops alive s) = true \/ (fuel <= length ops)%nat.
+Proof.
+  induction fuel as [|f IH]; intros ops alive s wait G Wk Ha Hro; [right; lia|].
+  destruct ops as [|op r]; [left; reflexivity|].
+  cbn [rrun rjudge].
+  set (a := N.min (zN (hd 0%Z r)) 100000). set (b := N.min (zN (hd 0%Z (tl r))) 100000).
+  assert (Hlen : forall X : Prop, (X \/ (f <= length (tl (tl r)))%nat) -> X \/ (S f <= length (op :: r))%nat).
+  { intros X [H|H]; [left; auto|right]. destruct r as [|x [|y r]]; cbn in *; lia. }
+  assert (O : tr (cur s) <= tw (cur s)) by (destruct G as [C _]; pose proof (ci_ord _ _ C); lia).
+  assert (DROP : (if negb alive
+     then [9%Z; 0%Z; Nz (cwakes s); Nz (twakes s)] ++ rrun f size (tl (tl r)) alive s
+     else let s' := consumer_drop s in [0%Z; 0%Z; Nz (cwakes s'); Nz (twakes s')] ++ rrun f size (tl (tl r)) false s') = 
+     (if negb alive
+     then [9%Z; 0%Z; Nz (cwakes s); Nz (twakes s)] ++ rrun f size (tl (tl r)) alive s
+     else let s' := consumer_drop s in [0%Z; 0%Z; Nz (cwakes s'); Nz (twakes s')] ++ rrun f size (tl (tl r)) false s')) by reflexivity.
+  clear DROP.
+  assert (DR : rjudge f (tl (tl r)) None (Nz (tw (cur s)) - Nz (tr (cur s)))
+     (if negb alive then rrun f size (tl (tl r)) alive s else rrun f size (tl (tl r)) false (consumer_drop s)) = true
+     \/ (f <= length (tl (tl r)))%nat).
+  { destruct alive; cbn [negb].
+    - destruct (drop_good s G) as [Gd Cd]. rewrite <- Cd. apply IH; auto; try exact I; try discriminate.
+    - apply IH; auto; try exact I; try discriminate. }
+  destruct op as [|[[ | | ]|[ | | ]|]|].
+  - (* task poll *)
+    destruct (task_poll size [a; b] s) as [s' code] eqn:E.
+    destruct (task_poll_spec _ _ _ _ G E) as (G' & T & M & K).
+    pose proof (task_poll_ropen _ _ _ _ E) as Ro.
+    destruct G as [C R]. destruct G' as [C' R'].
+    cbn [app].
+    set (n := released s' - released s).
+    assert (Hn : (0 <=? Nz n)%Z = true) by (apply Z.leb_le; unfold Nz; lia).
+    rewrite Hn. cbn [andb].
+    apply Hlen.
+    destruct (0 <? Nz n)%Z eqn:Pn.
+    + apply Z.ltb_lt in Pn.
+      assert (OK : match wait with Some w0 => (w0 <? Nz (cwakes s'))%Z | None => true end = true).
+      { destruct wait as [w0|]; auto. destruct Wk as (W1 & W2 & W3).
+        destruct (rx_task_no_lost_wakeup size [a; b] s s' code E) as (_ & Q); [congruence|unfold Nz in Pn; unfold n in Pn; lia|].
+        apply Z.ltb_lt. specialize (Q W2). subst w0. unfold Nz. lia. }
+      rewrite OK. cbn [andb].
+      replace (Nz (tw (cur s)) - Nz (tr (cur s)) + Nz n)%Z with (Nz (tw (cur s')) - Nz (tr (cur s')))%Z
+        by (rewrite T, <- R', <- R; unfold n, Nz; lia).
+      apply IH; [split; auto|exact I|auto|intros Hal; rewrite Ro; auto].
+    + apply Z.ltb_ge in Pn. cbn [andb].
+      assert (Req : released s' = released s) by (unfold n, Nz in Pn; lia).
+      replace (Nz (tw (cur s)) - Nz (tr (cur s)) + Nz n)%Z with (Nz (tw (cur s')) - Nz (tr (cur s')))%Z
+        by (rewrite T, <- R', <- R; unfold n, Nz; lia).
+      apply IH; [split; auto| |auto|intros Hal; rewrite Ro; auto].
+      destruct wait as [w0|]; [|exact I]. destruct Wk as (W1 & W2 & W3). destruct (K Req) as [K1 K2].
+      repeat split; congruence.
+  - apply Hlen. cbn [app]. destruct alive; cbn [negb app]; exact DR.
+  - apply Hlen. cbn [app]. destruct alive; cbn [negb app]; exact DR.
+  - apply Hlen. cbn [app]. destruct alive; cbn [negb app]; exact DR.
+  - apply Hlen. cbn [app]. destruct alive; cbn [negb app]; exact DR.
+  - apply Hlen. cbn [app]. destruct alive; cbn [negb app]; exact DR.
+  - (* release *)
+    apply Hlen. destruct alive; cbn [negb].
+    + destruct (crel_spec a s G) as (G' & T1 & T2 & K1 & K2 & K3 & L).
+      cbn [app]. cbn [Z.eqb].
+      set (n := N.min a (c_len (cur s))) in *.
+      replace (0 <=? Nz n)%Z with true by (symmetry; apply Z.leb_le; unfold Nz; lia).
+      replace (Nz n <=? Nz (tw (cur s)) - Nz (tr (cur s)))%Z with true by (symmetry; apply Z.leb_le; unfold Nz; lia).
+      cbn [andb].
+      replace (Nz (tw (cur s)) - Nz (tr (cur s)) - Nz n)%Z with (Nz (tw (cur (consumer_release size a s))) - Nz (tr (cur (consumer_release size a s))))%Z
+        by (rewrite T1, T2; unfold Nz; lia).
+      apply IH; auto; [|intros Hal; rewrite K3; auto].
+      destruct wait as [w0|]; [|exact I]. destruct Wk as (W1 & W2 & W3). repeat split; congruence.
+    + cbn [app]. cbn [Z.eqb]. rewrite (Ha eq_refl). apply IH; auto; try exact I; try discriminate.
+  - (* consumer poll_acquire *)
+    apply Hlen. destruct alive; cbn [negb].
+    + destruct (consumer_poll_acquire size (N.max a 1) s) as [[s' code] n] eqn:E.
+      assert (Hw1 : 1 <= N.max a 1) by lia.
+      destruct (cpa_spec _ _ _ _ _ Hw1 G E) as (G' & T1 & T2 & K1 & K2 & [(c1 & c2 & c3)|(c1 & c2 & c3 & c4)]).
+      * subst code. cbn [app]. cbn [Z.eqb Nz Z.of_N].
+        replace (0 <? Nz n)%Z with true by (symmetry; apply Z.ltb_lt; unfold Nz; lia).
+        replace (Nz n <=? Nz (tw (cur s)) - Nz (tr (cur s)))%Z with true by (symmetry; apply Z.leb_le; unfold Nz; lia).
+        cbn [andb]. rewrite <- T1, <- T2. apply IH; auto; [exact I|intros Hal; rewrite K2; auto].
+      * subst code n. cbn [app]. cbn [Z.eqb Nz Z.of_N].
+        replace (Nz (tw (cur s)) - Nz (tr (cur s)) =? 0)%Z with true by (symmetry; apply Z.eqb_eq; rewrite c3; lia).
+        cbn [andb]. rewrite <- T1, <- T2. apply IH; auto; [|discriminate|intros Hal; rewrite K2; auto].
+        cbn. repeat split; auto. rewrite K2. auto.
+    + cbn [app]. cbn [Z.eqb]. rewrite (Ha eq_refl). apply IH; auto; try exact I; try discriminate.
+  - apply Hlen. cbn [app]. destruct alive; cbn [negb app]; exact DR.
+Qed.
 End Judge.
+
+Theorem rxring_judge_run : forall case, RxRing.judge case (RxRing.run case) = true.
+Proof.
+  intros case. unfold judge, run, rsize.
+  set (k2 := N.min (zN (hd 0%Z case)) 6).
+  assert (Hp : 0 < 2 ^ k2) by (apply N.neq_0_lt_0; apply N.pow_nonzero; discriminate).
+  assert (Hl : 2 ^ k2 <= 2147483648) by (change 2147483648 with (2 ^ 31); apply N.pow_le_mono_r; [discriminate|unfold k2; lia]).
+  assert (G : rgood (2 ^ k2) (rinit (2 ^ k2))).
+  { split; [apply cinvr_init; auto; unfold two32; lia|reflexivity]. }
+  assert (A : true = false -> @None Z = None) by auto.
+  assert (B : true = true -> ropen (rinit (2 ^ k2)) = true) by auto.
+  destruct (judge_rrun (2 ^ k2) Hp Hl (S (length case)) (tl case) true (rinit (2 ^ k2)) None G I A B) as [J|J].
+  - exact J.
+  - exfalso. destruct case; cbn in J; lia.
+Qed.
